@@ -20,6 +20,7 @@ from piquasso.core import _context, _blackbird
 from piquasso.core import _mixins
 from .instruction import Instruction
 from .mode import Q
+from .exceptions import InvalidProgram
 
 
 class Program(_mixins.DictMixin, _mixins.RegisterMixin, _mixins.CodeMixin):
@@ -80,6 +81,13 @@ class Program(_mixins.DictMixin, _mixins.RegisterMixin, _mixins.CodeMixin):
             return instruction.modes
         if len(instruction.modes) == 0:
             return register.modes
+
+        if any(m >= len(register.modes) for m in instruction.modes):
+            raise InvalidProgram(
+                f"The instruction '{instruction}' of the subprogram addresses the modes "
+                f"'{instruction.modes}', but the subprogram is registered on the "
+                f"'{len(register.modes)}' modes '{register.modes}'."
+            )
 
         return tuple(int(register.modes[m]) for m in instruction.modes)
 
